@@ -23,7 +23,7 @@ RULE = ('tables: S(12)/S(16) ∪ F, two labelings; per table every non-empty sub
         'and is not a chain; distinct = distinct table')
 ASSUMPTIONS = ['R1 closure and least-concept search are the definitions',
                'object and property labels are disjoint (required by Context)']
-HITS = ('hit_closure_adds','hit_nonempty_bottom','hit_nonempty_top_intent')
+HITS = ('hit_closure_adds', 'hit_nonempty_bottom', 'hit_nonempty_top_intent', 'hit_sibling_schedule')
 BUDGET = {'quick': 240, 'thorough': 3000}
 
 
@@ -59,6 +59,16 @@ def check_case(case, ctr):
             if arg:
                 got = ctx[q]
                 ctr['calls'] += 1
+                # the query is a collection: repeats and order do not change it
+                q2 = tuple(reversed(q)) * 2
+                if len(q) > 2 and len(q) != length:
+                    pass
+                elif ctx[q2] != got or lat[q2] is not lat[q] or (axis == 'p' and lat(q2) is not lat(q)) \
+                        or ctx[list(q)] != got:
+                    bad('query-repeats-order', q2, got, ctx[q2])
+                    return V
+                else:
+                    ctr['calls'] += 3
                 if (len(got) != 2 or frozenset(got[0]) != frozenset(exp[0])
                         or frozenset(got[1]) != frozenset(exp[1])
                         or len(got[0]) != len(set(got[0])) or len(got[1]) != len(set(got[1]))):
@@ -110,6 +120,24 @@ def check_case(case, ctr):
     top = lat[()]
     if top is not al[ref.top] or top is not lat.supremum:
         bad('lattice-empty-key-is-top', [], None, repr(top))
+    # interleaving: sibling contexts over the same labels with the complemented table
+    if case.labeling == 'asc' and case.variant == 'fresh' and case.n * case.m <= 16 and not V:
+        older, a, newer, iref = e1.sibling_schedule(case)
+        ctr['hit_sibling_schedule'] += 1
+        for c, r, name in ((a, ref, 'case-context'), (older, iref, 'older-sibling')):
+            for i in range(case.n):
+                ctr['calls'] += 1
+                exp = (case.olab(r.closure_objs([i])), case.plab(r.intent_of([i])))
+                if c[(case.objs[i],)] != exp:
+                    bad('lookup-with-sibling-contexts', (case.objs[i],), exp, c[(case.objs[i],)])
+                    break
+            for j in range(case.m):
+                ctr['calls'] += 1
+                exp = (case.olab(r.extent_of([j])), case.plab(r.closure_props([j])))
+                if c[(case.props[j],)] != exp:
+                    bad('lookup-with-sibling-contexts', (case.props[j],), exp, c[(case.props[j],)])
+                    break
+        del older, a, newer
     if ref.closure_objs(()):
         ctr['hit_nonempty_bottom'] += 1
     if ref.intent_of(range(case.n)):
@@ -118,7 +146,7 @@ def check_case(case, ctr):
 
 
 def run_shard(shard, tier):
-    return e1.run_shard_generic(shard, tier, ID, check_case)
+    return e1.run_shard_generic(shard, tier, ID, check_case, variants=('pickle', 'fromdict-raw'))
 
 
 def main(tier):
